@@ -11,6 +11,7 @@ import Verif.Model.Value
 import Verif.Model.Funcs
 import Verif.Model.Calc
 import Verif.Model.Mustache
+import Verif.Model.Variant
 
 open Verif
 
@@ -458,6 +459,72 @@ def doTpl (args : List String) : String :=
     | .ok r => s!"ok {showRunes r}"
   | _ => "bad-op"
 
+/-! ### variants (C20): `var <op>*` over four slots -/
+
+def parseHost (kind payload : String) (slots : Array V) : Option HostVal :=
+  if kind == "int" then payload.toInt?.map fun i => .int (Int64.ofInt i)
+  else if kind == "int32" then payload.toInt?.map fun i => .int32 (Int64.ofInt i)
+  else if kind == "uint" then payload.toNat?.map .uint
+  else if kind == "uint32" then payload.toNat?.map .uint32
+  else if kind == "int64" then payload.toInt?.map fun i => .int64 (Int64.ofInt i)
+  else if kind == "var" then payload.toNat?.map fun k => .variant (slots.getD k .null)
+  else if kind == "nil" then some .nil
+  else if kind == "other" then some (.other 0)
+  else match decV payload with
+    | some (.float f) => some (.float32 f)
+    | some (.double d) => some (.float64 d)
+    | some (.bool b) => some (.bool b)
+    | some (.str x) => some (.string x)
+    | some (.dateTime a b) => some (.time a b)
+    | some (.timeSpan n) => some (.duration n)
+    | some (.array es) => some (.list es)
+    | _ => none
+
+def varStep (slots : Array V) (op : String) : Array V × String :=
+  let get (k : String) : V := slots.getD (k.toNat?.getD 0) .null
+  let put (k : String) (v : V) : Array V := slots.setIfInBounds (k.toNat?.getD 0) v
+  match op.splitOn ":" with
+  | ["new", k, kind, payload] =>
+    match parseHost kind payload slots with
+    | some h => (put k (ofHost h), "-")
+    | none => (slots, "bad")
+  | ["new", k, kind] =>
+    match parseHost kind "" slots with
+    | some h => (put k (ofHost h), "-")
+    | none => (slots, "bad")
+  | ["set", k, enc] =>
+    match decV enc with
+    | some v => (put k v, "-")
+    | none => (slots, "bad")
+  | ["len", k, n] =>
+    match setLength (get k) (n.toNat?.getD 0) with
+    | some v => (put k v, "-")
+    | none => (slots, "panic")
+  | ["sidx", k, i, enc] =>
+    match decV enc, i.toInt? with
+    | some e, some i =>
+      (match setByIndex (get k) i e with
+       | some v => (put k v, "-")
+       | none => (slots, "panic"))
+    | _, _ => (slots, "bad")
+  | ["gidx", k, i] =>
+    match i.toInt? with
+    | some i => (slots, match getByIndex (get k) i with | some v => encV v | none => "panic")
+    | none => (slots, "bad")
+  | ["asg", d, sK] => (put d (get sK), "-")
+  | ["cln", d, sK] => (put d (get sK), "-")
+  | ["eq", a, b] => (slots, if veq (get a) (get b) then "T" else "F")
+  | ["clr", k] => (put k .null, "-")
+  | ["obs", k] => (slots, s!"{(get k).typ.toNat}/{encV (get k)}/{vLength (get k)}")
+  | ["mut", _] => (slots, "-")
+  | _ => (slots, "bad")
+
+def doVar (args : List String) : String :=
+  let (slots, outs) := args.foldl (fun (acc : Array V × List String) op =>
+    let (s', o) := varStep acc.1 op
+    (s', o :: acc.2)) (#[.null, .null, .null, .null], [])
+  " ".intercalate outs.reverse ++ " | " ++ " ".intercalate (slots.toList.map encV)
+
 def handle (line : String) : String :=
   match (line.trimAscii.toString.splitOn " ").filter (· != "") with
   | [] => ""
@@ -476,6 +543,7 @@ def handle (line : String) : String :=
   | "eval" :: args => doEval args
   | "coll" :: args => doColl args
   | "tplparse" :: args => doTplParse args
+  | "var" :: args => doVar args
   | "tpl" :: args => doTpl args
   | _ => "bad-op"
 
